@@ -12,7 +12,9 @@ Local Open Scope N_scope.
 Inductive proto := UDP | TCP | DNSCrypt | DoT | DoQ | DoH.
 
 (** What the code reads from the *http.Request: URL.Path (already
-    percent-decoded by net/http), TLS.ServerName if r.TLS != nil, Host. *)
+    percent-decoded by net/http), TLS.ServerName if r.TLS != nil, Host.
+    [d_tls_sni = None] is r.TLS == nil (plain HTTP); [Some []] is a TLS
+    connection whose ClientHello carried no SNI: the two are different inputs. *)
 Record doh_req := { d_path : bytes; d_tls_sni : option bytes; d_host_hdr : bytes }.
 
 Inductive cid_err :=
@@ -115,6 +117,18 @@ Definition server_name_from_http (r : doh_req) : cid_err + bytes :=
           | Some h => inr h
           | None => inl EHostParse
           end
+      end
+  end.
+
+(** The [fromHost] result of clientServerNameFromHTTP: the name was read from
+    the Host header (never when the request has a TLS state). *)
+Definition name_from_host (r : doh_req) : bool :=
+  match d_tls_sni r with
+  | Some _ => false
+  | None =>
+      match d_host_hdr r with
+      | [] => false
+      | _ :: _ => match split_host (d_host_hdr r) with Some _ => true | None => false end
       end
   end.
 
